@@ -89,7 +89,7 @@ def add_overrides(rng, spec, model_names):
     spec = copy.deepcopy(spec)
     have = {p['name'] for p in spec['parameters']}
     for name, (n, kind) in model_names.items():
-        if name in have or rng.random() > 0.35:
+        if name in have or rng.random() > (0.6 if kind in ('shapesys', 'staterror') else 0.35):
             continue
         p = {'name': name}
         if kind in ('normsys', 'histosys'):
@@ -108,7 +108,7 @@ def add_overrides(rng, spec, model_names):
             if rng.random() < 0.4: p['auxdata'] = [round(rng.uniform(5, 50), 1) for _ in range(n)]
         elif kind == 'shapefactor':
             if rng.random() < 0.5: p['inits'] = [round(rng.uniform(0.5, 2.0), 2) for _ in range(n)]
-        if rng.random() < 0.3: p['fixed'] = rng.random() < 0.5
+        if rng.random() < (0.5 if kind in ('shapesys', 'staterror') else 0.3): p['fixed'] = rng.random() < 0.5
         if len(p) > 1:
             spec['parameters'].append(p)
     rng.shuffle(spec['parameters'])
